@@ -445,6 +445,9 @@ static void run_barrier2(void)
 	main_leave();
 }
 
+#define N_ENQD 200	/* the churn thread's call_rcu has returned */
+static int enqd_pred(void *a) { (void)a; return (int)vrt_note_get(N_ENQD); }
+
 static void *helper_churn(void *a)
 {
 	struct call_rcu_data *crdp;
@@ -454,6 +457,7 @@ static void *helper_churn(void *a)
 	crdp = create_call_rcu_data(0, -1);
 	set_thread_call_rcu_data(crdp);
 	do_call_rcu(1, cb);
+	vrt_note_set(N_ENQD, 1);
 	set_thread_call_rcu_data(NULL);
 	BLOCKING(call_rcu_data_free(crdp));
 	rcu_unregister_thread();
@@ -468,11 +472,52 @@ static void run_barrier_churn(void)
 	main_enter();
 	do_call_rcu(0, cb);
 	pthread_create(&c, NULL, helper_churn, NULL);
+	if (vrt_param("await_enq", 0))	/* the barrier then has to cover the callback queued on the short-lived helper */
+		BLOCKING(vrt_await(enqd_pred, NULL));
 	do_barrier();
 	check_barrier("barrier_churn", 5);
 	BLOCKING(pthread_join(c, NULL));
 	wait_cbs(2);
 	check_cbs("barrier_churn", 2);
+	main_leave();
+}
+
+/* rcu_barrier concurrent with the destruction of a helper that still holds queued callbacks (they are
+ * handed over to the default helper): the barrier must cover them wherever they currently are */
+static void *freer(void *a)
+{
+	struct call_rcu_data *crdp;
+	pthread_t r;
+
+	(void)a;
+	rcu_register_thread();
+	crdp = create_call_rcu_data(0, -1);
+	set_thread_call_rcu_data(crdp);
+	pthread_create(&r, NULL, reader, (void *)2L);
+	BLOCKING(vrt_await(ready_pred, (void *)1L));
+	do_call_rcu(0, cb);
+	vrt_yield();		/* lets the helper pick up the first batch (it then waits for the reader) */
+	do_call_rcu(1, cb);
+	vrt_note_set(N_ENQD, 1);
+	set_thread_call_rcu_data(NULL);
+	BLOCKING(call_rcu_data_free(crdp));
+	BLOCKING(pthread_join(r, NULL));
+	rcu_unregister_thread();
+	return NULL;
+}
+
+static void run_barrier_free_pending(void)
+{
+	pthread_t f;
+
+	main_enter();
+	pthread_create(&f, NULL, freer, NULL);
+	BLOCKING(vrt_await(enqd_pred, NULL));
+	do_barrier();
+	check_barrier("barrier_free_pending", 5);
+	BLOCKING(pthread_join(f, NULL));
+	wait_cbs(2);
+	check_cbs("barrier_free_pending", 2);
 	main_leave();
 }
 
@@ -487,5 +532,6 @@ struct vrt_scenario vrt_scenarios[] = {
 	{ "barrier", run_barrier, "rcu_barrier after call_rcu by another thread (params per_thread, reader, await_flag, second_cb)" },
 	{ "barrier2", run_barrier2, "two concurrent rcu_barrier callers" },
 	{ "barrier_churn", run_barrier_churn, "rcu_barrier || helper creation/destruction" },
+	{ "barrier_free_pending", run_barrier_free_pending, "rcu_barrier || destruction of a helper with callbacks still queued" },
 	{ NULL, NULL, NULL }
 };
